@@ -1,4 +1,4 @@
-import MaltModel.Proofs.C10Inv
+import MaltModel.Proofs.C10Refine
 import MaltModel.Props.C20
 /-!
 # C10 — the conversion cache is coherent, converts once, and is thread-safe
@@ -188,6 +188,40 @@ theorem C10_no_stale (T : Code → Opts → Nat → Factory)
   rw [h1] at heq
   exact hne (hv0.symm.trans (hinj _ _ _ _ _ _ heq).1)
 
+/- FULL STATEMENT (false of the pinned tree): the same without `ValInj` — the `KeyError` outcome of
+   `C10_no_error_counterexample` and the second conversion of `C10_once_counterexample` are not
+   behaviours of the atomic specification. -/
+
+/-- **Refinement** to the atomic specification "lookup-or-convert" (`Malt.Cache.Spec`): for every
+history whose distinct code objects have distinct values and every schedule, some sequence of atomic
+steps — one `serve` per request, taken when a converting request stores its factory or when a
+request that found the factory returns; one `gc` per effective `gc` — leads the specification from
+its initial state to the abstraction (`abs`: cache contents as a lookup function; per thread the
+remaining requests and the outcomes so far, a request counting as served from its linearisation
+point on) of the implementation's state. -/
+theorem C10_refines_partial (T : Code → Opts → Nat → Factory) (progs : List (List (Request Opts)))
+    (V : ValInj (allReqs progs)) (sched : List Label) :
+    ∃ ls : List Spec.SLabel,
+      Spec.srun T (Spec.sinit progs) ls = abs (allReqs progs) (run T (init progs) sched) := by
+  have h0 : Inj (init progs : State Opts Factory) := by
+    intro e he; simp [init] at he
+  have h1 : Own T (init progs : State Opts Factory) := by
+    intro t th r rest hth _ f hf
+    simp only [init, List.getElem?_map, Option.map_eq_some_iff] at hth
+    obtain ⟨p, _, rfl⟩ := hth
+    simp at hf
+  obtain ⟨ls, hls⟩ := refines_from (T := T) V sched (Inv_init progs (mem_allReqs progs)) h0 h1
+  rw [abs_init] at hls
+  exact ⟨ls, hls⟩
+
+/-- What the abstraction keeps of a thread that is between requests: exactly its remaining requests
+and its outcomes.  (So at any quiescent point the implementation's observable state *is* a state of
+the atomic specification.) -/
+theorem C10_refines_observable (P : List (Request Opts)) (s : State Opts Factory) (t : Tid)
+    (th : Thread Opts Factory) (h : s.threads[t]? = some th) (hidle : th.pc = .idle) :
+    (abs P s).threads[t]? = some { todo := th.todo, results := th.results } := by
+  simp [abs, h, absThread, linearised, hidle]
+
 end generic
 
 /-! ## The real subkey type: `ConversionOptions` (C20) -/
@@ -238,6 +272,10 @@ example : ValInj (allReqs exRace) ∧ SigCoherent (allReqs exRace) := by decide
 /-- The hypotheses of the positive theorems are satisfiable by this non-trivial instance. -/
 example : ∀ e ∈ finished (run exT (init exRace) exRaceSched), ∃ f, e.2 = some f :=
   C10_no_error_partial exT exRace (by decide) exRaceSched
+/-- …and the refinement theorem applies to it. -/
+example : ∃ ls : List Spec.SLabel,
+    Spec.srun exT (Spec.sinit exRace) ls = abs (allReqs exRace) (run exT (init exRace) exRaceSched) :=
+  C10_refines_partial exT exRace (by decide) exRaceSched
 /-- An unfair schedule: thread 0 never runs again after blocking on the lock. -/
 example : outs (run exT (init exRace) (thr 0 2 ++ thr 1 3 ++ thr 0 5 ++ thr 1 20)) = [[], [some 1070005]] := by
   decide
